@@ -18,6 +18,7 @@ enum E { K1, K2 = 5 } e; enum E e2;
 int f0(void); int f1(int); int g2(int, double); int fv(int, ...); void fvoid(void); double fd(double); int fp1(int *); int fvp(void *); int fcc(const char *); int fs(struct S);
 int (*fp)(int); void (*fpv)(void); int *fpr(void); struct S fst(void);
 int f2p(int, int *); void *lk(const char *, void *); int fv3(int, char *, int *, ...); int g3p(int *, double, struct S *); void cb2(int (*)(int), void (*)(void));
+struct fwd; struct fwd *pfw; union ufw; union ufw *pufw; struct fwd { int v; struct fwd *next; union ufw *u; }; union ufw { int k; struct fwd f; };
 typedef int row_t[3]; typedef row_t grid_t[2];
 struct M { double m[4][4]; row_t cell[3]; grid_t gr; struct { int g[2][2]; union { char u[2][2][2]; int w; } iu; } in; char name[8]; struct S as[2]; } ma, mb, *pma;
 union UM { int k[2][3]; struct M sm; row_t r; } uma, umb, *puma; struct M fma(void); int fmm(struct M); int fum(union UM);
@@ -61,6 +62,7 @@ def tests():
         "fum(uma);", "{ struct M lm = ma; lm; }", "{ struct M lm = fma(); lm; }", "{ union UM lu = uma; lu; }", "ma.m[1][2] = 1.0;", "ma.cell[1][2] = 3;", "ma.gr[1][2] = ma.cell[0][0];", "ma.in.g[1][1];",
         "ma.in.iu.u[1][1][1] = 'c';", "pma->m[0][0];", "pma = &ma;", "(i ? ma : mb).cell[0][0];", "ma.as[1] = st;", "st = ma.as[0];", "ma.as[0].arr[1] = 2;", "uma.k[1][2] = 1;", "uma.r[0];", "sizeof ma.m;", "sizeof(ma.cell[0]);",
         "p = ma.cell[1];", "p = ma.in.g[0];", "pd = ma.m[2];", "pc = ma.name;", "pc = ma.in.iu.u[1][0];", "(ma = mb).name[0];", "fma().m[1][1];", "(0, ma).gr[0][1];",
+        "pfw->v;", "pfw->next->v = 1;", "pfw->u->k;", "pufw->f.next = pfw;", "i = pfw->next->u->f.v;", "pufw = pfw->u;", "{ struct fwd lf = *pfw; lf.v; }",
         "st.m;", "st.n;", "st.o;", "st.arr[1];", "st.next;", "st.next->m;", "ps->m;", "ps->next->next->o;", "(*ps).m;", "(&st)->m;", "st.m = 1;", "ps->n = 'c';", "st = st2;", "*ps = st;", "ps = &st;", "ps = st.next;", "st.next = ps;",
         "st.next = 0;", "st.m + st.o;", "st.m++;", "&st.m;", "&ps->o;", "p = &st.m;", "p = st.arr;", "pd = &ps->o;", "un.m;", "un.o = 1.0;", "pu->m;", "pu = &un;", "un = *pu;", "ts.m;", "pts->o;", "ts = st;", "st = ts;", "pts = ps;", "ps = pts;",
         "pts = &ts;", "ps == pts;", "ps == 0;", "!ps;", "ps ? 1 : 0;", "i ? ps : 0;", "i ? st : st2;", "(i ? st : st2).m;", "fst().m;", "fs(st);", "fs(ts);", "fs(*ps);", "st = fst();", "sizeof st;", "sizeof(struct S);", "sizeof(TS);", "sizeof st.arr;",
